@@ -39,6 +39,8 @@ struct Fn
 			return (x - s) / (1.0 + std::fabs(x - s)) - c;
 		if(kind == "plat")	 // 1/(1+x^2)^k - d : tiny same-sign plateaus far from the root
 			return std::pow(1.0 / (1.0 + x * x), (double) ip) - c;
+		if(kind == "scale")	  // c * inner(x): the value scale of the function (down to subnormal, up to 1e300)
+			return w * (*inner)(x);
 		if(kind == "at")   // the value v (any double incl. nan, +-inf, 0) at x == t, the inner function elsewhere
 			return x == t ? w : (*inner)(x);
 		if(kind == "nanle")
@@ -91,6 +93,11 @@ static Fn parse_fn(Args& a)
 	{
 		f.s = a.dbl();
 		f.c = a.dbl();
+	}
+	else if(f.kind == "scale")
+	{
+		f.w		= a.dbl();
+		f.inner = std::make_shared<Fn>(parse_fn(a));
 	}
 	else if(f.kind == "at")
 	{
